@@ -114,6 +114,18 @@ example : cbfPkts (final [[.cbfArrive 1 7], [.cbfArrive 2 7], [.cbfFire 3 7 1]] 
   decide +kernel
 example : cbfPkts (final [[.cbfArrive 1 7], [.cbfFire 3 7 1]] [0, 0, 0, 0, 0, 0, 0, 1, 1, 1, 1, 1]) 7 = 1 := by decide +kernel
 
+/-- what the ONE `_cbf_lock` section of `_cbf_discard` buys (`source_cbf_discard_section`): with a lock-free look-up in front
+of it (`discardUnlocked`: `get` without the lock, `cancel()`, then `pop(key, None)` under the lock, "discarded") the expiry
+can take the entry between the look-up and the cancel - thread 1 commits after thread 0 has seen the timer, the discard
+completes and reports a cancellation, the packet is transmitted AFTERWARDS: one insertion, one completed cancellation,
+one transmission (`cbf_at_most_once` fails).  Same schedule on the code as it is (`discardLocked`): not transmitted. -/
+theorem cbf_discard_unlocked_witness :
+    let sched := List.replicate 8 0 ++ List.replicate 4 1 ++ List.replicate 3 0 ++ [1]
+    let s := (run (mkSys ({} : St) [compile (.cbfArrive 1 7) ++ discardUnlocked 2 7, compile (.cbfFire 3 7 1)]) sched).sh
+    let t := (run (mkSys ({} : St) [compile (.cbfArrive 1 7) ++ discardLocked 2 7, compile (.cbfFire 3 7 1)]) sched).sh
+    (s.cbfIns 7 = 1 ∧ s.cbfCan 7 = 1 ∧ cbfPkts s 7 = 1 ∧ s.tCancelled 1 = true) ∧
+    (t.cbfIns 7 = 1 ∧ t.cbfCan 7 = 1 ∧ cbfPkts t 7 = 0) := by decide +kernel
+
 /-! ## Position vectors -/
 
 /-- every emitted packet carries a PV that was the ego PV at some instant (installed by `egoSwap`, or the initial one) -/
@@ -250,6 +262,22 @@ example :
     let s := final [[.guc 1 1 9 true], [.refresh []], [.guc 2 2 9 true]]
       (List.replicate 13 0 ++ List.replicate 5 1 ++ List.replicate 40 0 ++ List.replicate 40 2)
     s.lsBuf 9 = [1, 2] ∧ s.loct 9 = true ∧ s.pending 9 = true := by
+  decide +kernel
+
+/-- **handed to exactly one reply**: the reply section REMOVES the buffer it reads (`pop`), so of two replies for the same
+destination - handled by any two threads in any order - the second gets nothing to flush (block facts) … -/
+theorem ls_reply_takes_buffer (o o' d : Nat) (s : St) :
+    (lsReplyPop o d s).lsBuf d = [] ∧ (lsReplyPop o' d (lsReplyPop o d s)).regL o' = [] :=
+  ⟨lsReplyPop_empties o d s, lsReplyPop_second_gets_nothing o o' d s⟩
+
+/-- … and what that buys: with `get` instead of `pop` (the entry deleted only after the flush loop, `lsReplyPeekProg`) two
+replies of station 9 (the answers to an LS request and to its retransmission) handled by two threads both read request 1
+and both send it; on the code as it is (same schedule) it is sent once -/
+theorem ls_flush_twice_witness :
+    let sched := List.replicate 35 0 ++ List.replicate 60 1 ++ List.replicate 60 0
+    let s := (run (mkSys ({} : St) [compile (.guc 1 1 9 true) ++ lsReplyPeekProg 2 9 true, lsReplyPeekProg 3 9 true]) sched).sh
+    let t := final [[.guc 1 1 9 true, .lsReply 2 9 1 true], [.lsReply 3 9 1 true]] sched
+    (s.sent.filter (·.kind == 2)).map (·.ref) = [1, 1] ∧ (t.sent.filter (·.kind == 2)).map (·.ref) = [1] ∧ t.lsSent 9 = [1] := by
   decide +kernel
 
 /-- the window between sending the LS request and storing its timer: a reply handled in that window leaves a live,
@@ -442,6 +470,22 @@ theorem source_blocks :
     Generated.Locks.shape .Router_refresh_ego_position_vector =
       [([.Router_ego_position_vector_lock], [.Router_ego_position_vector])] :=
   ⟨blocks_get_sequence_number, blocks_cbf_timeout, blocks_refresh_ego⟩
+
+/-- `_cbf_discard` (duplicate overheard while the packet waits in the CBF buffer) looks the buffered copy up AND removes it in
+ONE `_cbf_lock` section and touches the buffer nowhere else: discard and expiry (`_cbf_timeout`, same lock) exclude each
+other - `cbf_discard_unlocked_witness` shows what a lock-free look-up in front of the section breaks -/
+theorem source_cbf_discard_section :
+    Generated.Locks.shape .Router__cbf_discard = [([.Router__cbf_lock], [.Router__cbf_buffer])] := blocks_cbf_discard
+
+/-- the LS reply handler has ONE `_ls_lock` section and its access to the packet buffers there is a write (`pop`): the
+buffered requests are handed to exactly one reply (`ls_reply_takes_buffer`, `ls_flush_twice_witness`) -/
+theorem source_ls_reply_pops :
+    Generated.Locks.shape .Router_gn_data_indicate_ls_reply =
+      [([.Router__ls_lock], [.Router__ls_packet_buffers, .Router__ls_retransmit_counters, .Router__ls_timers, .ext_ls_pending])] ∧
+    (Generated.Locks.blocks .Router_gn_data_indicate_ls_reply).map
+        (fun b => (b.1, b.2.filter (fun x => x.1 == .Router__ls_packet_buffers))) =
+      [([.Router__ls_lock], [(.Router__ls_packet_buffers, .write)])] :=
+  ⟨blocks_ls_reply, ls_reply_pops_buffer⟩
 
 /-- the ego position vector is published by exactly ONE store per refresh (and rebound nowhere else after construction) -/
 theorem source_single_publication :
